@@ -8,7 +8,7 @@ From QT Require Import Base.Prelude C19.Model C19.Spec C19.CancelThm.
 Open Scope Z_scope.
 
 Definition rearm_tie : scenario :=
-  Scenario true true false (SeqDef [1; 2] [100; 200] 0) (CSeq (SeqDef [101; 102] [10; 20] 1)) 300 1 1000.
+  Scenario true true false (SeqDef [1; 2] [100; 200] 0) (CSeq (SeqDef [101; 102] [10; 20] 1)) 300 1 1000 0.
 
 (* replacement exactly at the re-arm instant (300 ms), ordered after the task step that created the new task *)
 Lemma C19_rearm_tie_old :
@@ -18,7 +18,7 @@ Proof. vm_compute. reflexivity. Qed.
 
 (* disable issued in the same batch as the request that installed the sequence *)
 Lemma C19_immediate_disable_old :
-  sim false 50 (Scenario true true false (SeqDef [1; 2] [100; 200] 2) CDisable 0 0 1000) =
+  sim false 50 (Scenario true true false (SeqDef [1; 2] [100; 200] 2) CDisable 0 0 1000 0) =
     [MP OOk true; MC 0 true; MD 0 OCancelled true; ME 1000 true].
 Proof. vm_compute. reflexivity. Qed.
 
@@ -28,13 +28,92 @@ Lemma C19_cancel_immediate_old_refuted :
     sc_enabled sc = true /\ sc_writable sc = true /\ sc_expr sc = false /\
     List.length (sd_vals (sc_seq sc)) = List.length (sd_delays (sc_seq sc)) /\
     cancelling (sc_cmd sc) /\ sc_at sc <= sc_horizon sc /\
-    ~ exists a0 l1 a a' l2,
-        sim false fuel sc = MP OOk a0 :: l1 ++ [MC (sc_at sc) a; MD (sc_at sc) OOk a'] ++ l2.
+    ~ exists a0 l1 a td a' l2,
+        sim false fuel sc = MP OOk a0 :: l1 ++ [MC (sc_at sc) a; MD td OOk a'] ++ l2.
 Proof.
   exists 50%nat, rearm_tie. repeat split; try reflexivity; try (cbn; lia).
-  intros (a0 & l1 & a & a' & l2 & H).
-  assert (Hin : In (MD 300 OOk a') (sim false 50 rearm_tie)).
+  intros (a0 & l1 & a & td & a' & l2 & H).
+  assert (Hin : In (MD td OOk a') (sim false 50 rearm_tie)).
   { rewrite H. right. apply in_or_app. right. right. left. reflexivity. }
   rewrite C19_rearm_tie_old in Hin. cbn in Hin.
   repeat (destruct Hin as [Hin|Hin]; [discriminate Hin|]). exact Hin.
+Qed.
+
+(* ------------------------------------------------------------------------------------------------------------ *)
+(* the code before fixes/C19-concurrent-cancel.diff (HEAD c1dd626): set_sequence / disable / attr_set_expression do
+       if self._sequence: await self._sequence.cancel(); self._sequence = None
+   Two commands whose first steps run in the same loop iteration while a sequence S0 plays BOTH see S0 and both wait for
+   its task; when they resume (in order) each clears port._sequence and goes on: the sequence installed by the first is
+   dropped by the second without being cancelled (an orphan that plays for ever), and a sequence is installed by a request
+   that resumes after a concurrent disable.  Model of exactly that shape (S0 running at the commands). *)
+
+Definition step_of (s : seqst) : list mev * option seqst :=
+  let '(e, s') := task_step s in (map (tag (s_gen s)) e, s').
+
+(* an unreferenced sequence [a] and the port's sequence [b] both keep playing; earliest due first *)
+Fixpoint run_two (fuel : nat) (a b : option seqst) (h : Z) : list mev :=
+  match fuel with
+  | O => []
+  | S f =>
+      let da := match a with Some s => match due s with Some t => if t <=? h then Some t else None | None => None end | None => None end in
+      let db := match b with Some s => match due s with Some t => if t <=? h then Some t else None | None => None end | None => None end in
+      match a, b, da, db with
+      | Some sa, Some sb, Some ta, Some tb =>
+          if ta <=? tb then let '(e, a') := step_of sa in e ++ run_two f a' b h
+          else let '(e, b') := step_of sb in e ++ run_two f a b' h
+      | Some sa, _, Some _, None => let '(e, a') := step_of sa in e ++ run_two f a' b h
+      | _, Some sb, None, Some _ => let '(e, b') := step_of sb in e ++ run_two f a b' h
+      | _, _, _, _ => []
+      end
+  end.
+
+Definition install_old (g : Z) (c : cmd) (now : Z) : option seqst :=
+  match c with
+  | CSeq sd => match sd_vals sd with [] => None | _ => Some (SeqSt g sd 0 (TFresh now)) end
+  | _ => None
+  end.
+
+(* c1, c2 in {CSeq (well-formed), CDisable}, S0 playing at [at_]; returns the log after the first request *)
+Definition sim2_old (fuel : nat) (sc : scenario) (c2 : cmd) : list mev2 :=
+  let p0 := Port (sc_enabled sc) (sc_writable sc) (sc_expr sc) None in
+  let '(o0, p1) := patch true 0 p0 (sc_seq sc) 0 in
+  let '(l1, p2) := run_until fuel p1 (sc_at sc) (sc_pos sc) in
+  let at_ := sc_at sc in
+  let s1 := install_old 1 (sc_cmd sc) at_ in      (* c1 resumes: _sequence = None; installs / disables *)
+  let s2 := install_old 2 c2 at_ in               (* c2 resumes: _sequence = None (drops s1 uncancelled); installs / disables *)
+  let act (s : option seqst) := match s with Some _ => true | None => false end in
+  M1 (MP o0 (is_active p1)) :: map M1 l1 ++
+  [M1 (MC at_ (is_active p2)); M1 (MD at_ OOk (act s1)); MD2 at_ OOk (act s2)] ++
+  map M1 (run_two fuel s1 s2 (sc_horizon sc)) ++ [M1 (ME (sc_horizon sc) (act s2))].
+
+Definition two_requests : scenario :=
+  Scenario true true false (SeqDef [1; 2] [30; 30] 0) (CSeq (SeqDef [101; 102] [40; 40] 0)) 45 0 200 0.
+
+(* what the real code at c1dd626 logs for corpus/C19/04-concurrent-commands.json, first scenario *)
+Lemma C19_concurrent_requests_old :
+  map enc2 (sim2_old 60 two_requests (CSeq (SeqDef [201; 202] [50; 50] 0))) =
+    [(0, 0, 0, true); (1, 0, 1, true); (1, 30, 2, true); (3, 45, 0, true); (4, 45, 0, true); (6, 45, 0, true);
+     (1, 45, 101, true); (1, 45, 201, true); (1, 85, 102, true); (1, 95, 202, true); (1, 125, 101, true);
+     (1, 145, 201, true); (1, 165, 102, true); (1, 195, 202, true); (5, 200, 0, true)].
+Proof. vm_compute. reflexivity. Qed.
+
+(* second scenario: disable + request; the request's sequence plays on the disabled port *)
+Lemma C19_concurrent_disable_old :
+  map enc2 (sim2_old 60 (Scenario true true false (SeqDef [1; 2] [30; 30] 0) CDisable 45 0 200 0)
+                     (CSeq (SeqDef [201; 202] [50; 50] 0))) =
+    [(0, 0, 0, true); (1, 0, 1, true); (1, 30, 2, true); (3, 45, 0, true); (4, 45, 0, false); (6, 45, 0, true);
+     (1, 45, 201, true); (1, 95, 202, true); (1, 145, 201, true); (1, 195, 202, true); (5, 200, 0, true)].
+Proof. vm_compute. reflexivity. Qed.
+
+(* the single-survivor property (Props/C19.v, C19_concurrent_single_survivor) fails for that code: after both requests have
+   returned, values of two different generations are submitted *)
+Lemma C19_concurrent_single_survivor_old_refuted :
+  exists fuel sc c2 pre tail,
+    sim2_old fuel sc c2 = pre ++ tail /\
+    last pre (MD2 0 OOk false) = MD2 (sc_at sc) OOk true /\
+    (exists t v, In (M1 (MSub 1 t v)) tail) /\ (exists t v, In (M1 (MSub 2 t v)) tail).
+Proof.
+  exists 60%nat, two_requests, (CSeq (SeqDef [201; 202] [50; 50] 0)).
+  eexists [_; _; _; _; _; _], _. split; [vm_compute; reflexivity|]. split; [reflexivity|].
+  split; [exists 45, 101 | exists 45, 201]; cbn; tauto.
 Qed.
